@@ -242,11 +242,11 @@ class LoopExpression(Expression):
                 tokens.eat_one_of(*argument_separators)
                 cols = parse_primitive(env, tokens)
             elif kind == TOKEN_COMMA:
-                if tokens.peek.kind == TOKEN_COMMA:
+                if tokens.current.kind == TOKEN_COMMA:
                     env.error(
                         LiquidSyntaxError(
                             f"expected 'reversed', 'offset' or 'limit', found {kind}",
-                            token=tokens.peek,
+                            token=tokens.current,
                         )
                     )
                 continue
